@@ -80,3 +80,8 @@ claim("C13", "DESIGN.md 5 C13",
       "Every OBU sequence of the stated alphabets (1-2 OBUs over 9 types x 5 extension settings x 8-13 sizes around the MTU and the 127/128 LEB128 boundary; 3-4 (thorough 5) OBUs over reduced alphabets) x 10 MTUs x size field on all / omitted on the last is packetized by the real AV1Payloader; an independent checker parses every payload and enforces the aggregation rules (<= MTU, W = element count or 0 with all elements length-prefixed, Z = previous Y, last Y = 0, no empty element, size flag cleared, no two layer ids per packet) and reassembles the OBUs; the same payloads go through one AV1Depacketizer (output = OBUs with size fields, temporal delimiters and tile lists removed) and through fresh AV1Packets + one frame.AV1 assembler. Complete sub-domains: LEB128 write/read for ALL 2^32 values (thorough; boundary neighbourhoods quick) incl. minimality and the deprecated aliases; ALL 2^16 OBU header byte pairs parse->marshal and marshal->parse.",
       "OBU sequences of 6-8 units and alphabets beyond the stated ones are outside the bound.",
       "bounded exhaustive enumeration against an independent AV1 RTP aggregation-rule checker and OBU writer; complete enumeration of LEB128 and OBU-header domains (explicit choice-tree DFS on the real code)")
+
+claim("C14", "DESIGN.md 5 C14",
+      "Payloader side: every sequence of 1-3 (thorough 4) HEVC NAL units (8 types, 3 layer/TID pairs, sizes around the MTU, start-code length) x 8 MTUs x SkipAggregation x AddDONL is packetized by the real H265Payloader; every payload is parsed by H265Packet AND by an independent RFC 7798 parser (which must agree on the structure), DONL/DOND placement, AP header (type 48, minimum layer id and TID), FU shape (>= 2 FUs, S first only, E last only, FuType, F/layer/TID), IsPartitionHead and the MTU are checked, and the units are reassembled and compared with the input. Parser side: single / AP (2-3 units) / FU (start, middle, end) / PACI (every PHSsize 0-31 x F0-F2,Y x A x cType) payloads from the reference encoder, with and without DONL, with EVERY truncation (rejected unless the prefix is itself well-formed) and all accessors compared. Complete domains: all 2^16 payload headers, 2^8 FU headers, 2^16 PACI field words and ALL 2^24 TSCI triples.",
+      "F = 0 only; DON values are not demanded. One listed known finding (DONL in every FU, pinned by a test) matched by an exact defect model.",
+      "bounded exhaustive enumeration against an independent RFC 7798 encoder/parser; complete enumeration of the bit-field domains (explicit choice-tree DFS on the real code)")
